@@ -97,8 +97,16 @@ def build_metadata(schema):
     md = sa.MetaData()
     for t in schema["tables"]:
         cols = []
+        # an index entry with "flag" is declared through the column-level flag Column(index=True[, unique=True]):
+        # SQLAlchemy turns it into Index("ix_<table>_<column>", column, unique=...) (honoured only in that exact shape)
+        flagged = {ix["cols"][0]: ix for ix in t.get("ixs", [])
+                   if ix.get("flag") and len(ix["cols"]) == 1 and ix["name"] == "ix_%s_%s" % (t["name"], ix["cols"][0]) and not ix.get("desc")}
         for c in t["cols"]:
             kw = {}
+            if c["name"] in flagged and not c.get("computed"):
+                kw["index"] = True
+                if flagged[c["name"]].get("unique"):
+                    kw["unique"] = True
             if c.get("pk"):
                 kw["primary_key"] = True
                 if c.get("autoinc") is False:
@@ -134,6 +142,8 @@ def build_metadata(schema):
             )
         tbl = sa.Table(t["name"], md, *items, comment=t.get("comment"))
         for ix in t.get("ixs", []):
+            if ix["cols"][0] in flagged and flagged[ix["cols"][0]] is ix and not any(c["name"] == ix["cols"][0] and c.get("computed") for c in t["cols"]):
+                continue  # created by the column flag
             # "desc": first column descending - SQLite reflects the index with plain column names
             exprs = [tbl.c[c].desc() if (i == 0 and ix.get("desc")) else tbl.c[c] for i, c in enumerate(ix["cols"])]
             sa.Index(ix["name"], *exprs, unique=bool(ix.get("unique")))
